@@ -616,6 +616,19 @@ def check_C04(tier):
                 for sname in syms:
                     declared[sym_name(sname)] = li + 1
             names = {k: v["name"] for k, v in r.g.syms.items()}
+            # the level and associativity of every token: its LAST precedence declaration
+            want_lv = {}
+            for li, (kind, syms) in enumerate(sp.get("prec", [])):
+                for sname in syms:
+                    want_lv[sym_name(sname)] = (li + 1, {"left": 0, "right": 1}.get(kind, 2))
+            for k, v in r.g.syms.items():
+                if not v["nt"] and v["name"] not in ("$", "start"):
+                    got_lv = (v["prec"], v["assoc"])
+                    exp_lv = want_lv.get(v["name"], (-1, 2))
+                    if got_lv != exp_lv and not (exp_lv[0] == -1 and got_lv[0] == -1):
+                        violations.append(viol(pid, r, "a token carries the wrong precedence level / associativity",
+                                               {"token": v["name"], "implementation": got_lv, "declared (last declaration counts)": exp_lv}))
+                        break
             for i, ru in enumerate(sp["rules"]):
                 want_p = None
                 for sname in ru["rhs"]:
@@ -892,6 +905,10 @@ HAND_SPECS = [
     {"tokens": ["N"], "lits": ["'a'", "'t'", "'$'", "'o'"], "prec": [("left", ["'a'"]), ("left", ["'t'"])], "nts": ["E"], "start": "E",
      "rules": [{"lhs": "E", "rhs": ["E", "'a'", "E"], "prec": None}, {"lhs": "E", "rhs": ["E", "'t'", "E"], "prec": None},
                {"lhs": "E", "rhs": ["'$'", "E", "'o'"], "prec": None}, {"lhs": "E", "rhs": ["N"], "prec": None}]},
+    # a literal token that is not ASCII (its name must still be printed as written)
+    {"tokens": ["N"], "lits": ["'×'", "'+'"], "prec": [("left", ["'+'"]), ("left", ["'×'"])], "nts": ["E"], "start": "E",
+     "rules": [{"lhs": "E", "rhs": ["E", "'+'", "E"], "prec": None}, {"lhs": "E", "rhs": ["E", "'×'", "E"], "prec": None},
+               {"lhs": "E", "rhs": ["N"], "prec": None}]},
     {"tokens": ["A", "B", "C", "D", "E"], "lits": [], "prec": [], "nts": ["S", "X", "Y"], "start": "S",
      "rules": [{"lhs": "S", "rhs": ["A", "Y", "E"], "prec": None}, {"lhs": "S", "rhs": ["A", "X", "D"], "prec": None},
                {"lhs": "S", "rhs": ["B", "Y", "D"], "prec": None}, {"lhs": "X", "rhs": ["C"], "prec": None},
@@ -1381,7 +1398,7 @@ C16_NAMES_T = ["NUM", "IDENT", "tok_1", "T9", "_x", "Étoile", "λ", "KW_IF", "a
 # keywords or emitter-internal names of either target language
 C16_NAMES_N = ["expr", "stmt_list", "S1", "_n", "Program", "opt", "é", "n0", "Z",
                "function", "class", "func", "var", "new", "default", "import", "Parser", "ValType", "translate", "StateSym"]
-C16_LITS = list("+-*/()=<>!&^~,.#@[]?:;|$_azAZ09") + ['"', "%", "{", "}", "`", "\\"]
+C16_LITS = list("+-*/()=<>!&^~,.#@[]?:;|$_azAZ09") + ['"', "%", "{", "}", "`", "\\"] + list("×ßéλ")
 
 
 def c16_spec(rng):
@@ -1478,6 +1495,11 @@ def check_C16(tier):
                 outp = os.path.join(work, "ts", pkg + ".ts")
             src = c16_render(sp, target, pkg, random.Random(arng.random() if False else ci))
             jid = "%d|%s" % (ci, vname)
+            if ci % 3 == 0:
+                # the output path already holds a longer file (an earlier generation of a bigger grammar): the new
+                # file must still be complete program text "as is"
+                with open(outp, "w") as f:
+                    f.write(("// stale output of an earlier run\n" + "var stale%d = 1 +\n" % ci) * 4000)
             jobs.append({"id": jid, "src": src, "out": outp, "target": target, "unpack": unpack, "object": obj})
             meta[jid] = {"src": src, "out": outp, "target": target, "pkg": pkg, "vname": vname}
     p = common.sh([common.BIN + "/yharness", "xgen"], inp="".join(json.dumps(j) + "\n" for j in jobs).encode())
@@ -1902,7 +1924,7 @@ def c11_spec(rng):
     """token declaration mixes"""
     nt = rng.randint(1, 6)
     tokens = ["T%d" % i for i in range(nt)]
-    lits = ["'%s'" % c for c in rng.sample(list("+-*/()=<>!&^~,.#@AZaz059") + ["\\"], rng.randint(0, 4))]   # '\' is the quote character
+    lits = ["'%s'" % c for c in rng.sample(list("+-*/()=<>!&^~,.#@AZaz059") + ["\\"] + list("×ßéλ"), rng.randint(0, 4))]   # '\' is the quote character; non-ASCII characters count by their code point
     nums = {}
     used = set(ord(gen.lit_char(l)) for l in lits)
     for t in tokens:
